@@ -144,6 +144,7 @@ type World struct {
 	logins   map[int]*loginRec
 	events   map[int]*aucoalesce.Event
 	last     time.Time
+	tsTag    map[int64]int // L2/L3: kernel time stamp of a record group -> tag
 	tsBase   time.Time
 	otherTys []auparse.AuditMessageType
 }
@@ -360,6 +361,11 @@ func (w *World) projectOne(b []byte) Out {
 			o.Tag = n
 		}
 	}
+	if o.Tag < 0 && w.tsTag != nil {
+		if t, ok := w.tsTag[e.LoggedAt.UnixNano()]; ok {
+			o.Tag = t
+		}
+	}
 	_, o.Args = e.Metadata.Extra["process_args"]
 	// identity: the login whose identity content equals the event's, exactly
 	got, _ := json.Marshal(identityOf(&e))
@@ -370,7 +376,7 @@ func (w *World) projectOne(b []byte) Out {
 	}
 	if src, ok := w.events[o.Tag]; ok {
 		wf := e.Type == "UserAction" && e.Component == "auditd" && e.LoggedAt.Equal(src.Timestamp)
-		wf = wf && e.Metadata.Extra["how"] == src.Summary.How
+		wf = wf && e.Metadata.Extra["how"] == src.Summary.How && e.Metadata.Extra["action"] == src.Summary.Action
 		obj, _ := json.Marshal(e.Metadata.Extra["object"])
 		want, _ := json.Marshal(src.Summary.Object)
 		var oa, ob any
